@@ -6,14 +6,14 @@
 //! - EXISTS subquery → Semi Join
 //! - NOT EXISTS subquery → Anti Join
 //! - IN subquery → Semi Join
-//! - NOT IN subquery → Anti Join
+//! - NOT IN subquery → Anti Join (plus NULL guards when either side is nullable)
 //! - Scalar subquery → Left Join with aggregation
 
 use crate::error::Result;
 use crate::optimizer::OptimizerRule;
 use crate::planner::{
-    AggregateNode, BinaryOp, DistinctNode, Expr, FilterNode, JoinNode, JoinType, LimitNode,
-    LogicalPlan, PlanSchema, ProjectNode, SortNode, SubqueryAliasNode,
+    AggregateNode, BinaryOp, Column, DistinctNode, Expr, FilterNode, JoinNode, JoinType, LimitNode,
+    LogicalPlan, PlanSchema, ProjectNode, ScalarValue, SortNode, SubqueryAliasNode, UnaryOp,
 };
 use std::collections::HashSet;
 use std::sync::Arc;
@@ -143,11 +143,13 @@ fn try_decorrelate_filter(node: &FilterNode) -> Result<Option<LogicalPlan>> {
                 subquery,
                 negated,
             } => {
-                if let Some(decorrelated) =
+                if let Some((decorrelated, null_guards)) =
                     decorrelate_in_subquery(&current_plan, expr, subquery, *negated)?
                 {
                     current_plan = decorrelated;
                     any_decorrelated = true;
+                    // NULL guards of a NOT IN stay behind as ordinary predicates
+                    unhandled_subquery_exprs.extend(null_guards);
                 } else {
                     // Couldn't decorrelate - need to re-apply as filter
                     unhandled_subquery_exprs.push(subquery_expr.clone());
@@ -357,10 +359,11 @@ fn build_filter_expr(
         Expr::column(&inner_field.name)
     };
 
+    // A correlation predicate reads `outer_expr op inner_col`
     Some(Expr::BinaryExpr {
-        left: Box::new(inner_expr),
+        left: Box::new(pred.outer_expr.clone()),
         op: pred.op,
-        right: Box::new(pred.outer_expr.clone()),
+        right: Box::new(inner_expr),
     })
 }
 
@@ -373,12 +376,23 @@ fn strip_projection(plan: &LogicalPlan) -> LogicalPlan {
 }
 
 /// Decorrelate an IN subquery into a Semi/Anti Join
+///
+/// Returns the join and the predicates that must still hold on its output.
+///
+/// `x IN (S)` in a WHERE clause keeps a row only on a real match, which is
+/// exactly a Semi Join on `x = y`. `x NOT IN (S)` is not simply the Anti Join:
+/// it is TRUE only when `S` is empty, or `x` is not NULL, `S` holds no NULL and
+/// nothing in `S` equals `x`. The Anti Join alone treats NULLs as "no match"
+/// and keeps those rows. When neither side can be NULL the Anti Join is exact;
+/// otherwise an uncorrelated NOT IN keeps the Anti Join and adds two guards
+/// that do not depend on the join (`S` holds no NULL; `x` is not NULL unless
+/// `S` is empty), and a correlated NOT IN is left to the subquery executor.
 fn decorrelate_in_subquery(
     outer: &LogicalPlan,
     in_expr: &Expr,
     subquery: &LogicalPlan,
     negated: bool,
-) -> Result<Option<LogicalPlan>> {
+) -> Result<Option<(LogicalPlan, Vec<Expr>)>> {
     // Get the output column from the subquery
     let subquery_schema = subquery.schema();
     if subquery_schema.fields().is_empty() {
@@ -390,6 +404,7 @@ fn decorrelate_in_subquery(
     // Extract correlation predicates
     let (mut correlation_predicates, decorrelated_subquery) =
         extract_correlation_predicates(subquery, outer)?;
+    let correlated = !correlation_predicates.is_empty();
 
     // Add the IN condition as a correlation predicate
     // The IN expr should match the first column of the subquery
@@ -403,8 +418,49 @@ fn decorrelate_in_subquery(
     // Build join conditions
     let join_on = build_join_conditions(&correlation_predicates, outer, &decorrelated_subquery)?;
 
-    if join_on.is_empty() {
+    // Every extracted predicate was removed from the subquery, so every one of
+    // them must come back as a join key. One that cannot (a non-equality such
+    // as `inner.id <> outer.id`, or an inner column the subquery does not
+    // project) would silently disappear and change the answer.
+    if join_on.is_empty() || join_on.len() != correlation_predicates.len() {
         return Ok(None);
+    }
+
+    let mut null_guards = Vec::new();
+    if negated {
+        // The IN pair is the last predicate, hence the last join key
+        let inner_key = &join_on[join_on.len() - 1].1;
+        let outer_nullable = !expr_is_non_nullable(in_expr, outer);
+        let inner_nullable = !expr_is_non_nullable(inner_key, &decorrelated_subquery);
+
+        if outer_nullable || inner_nullable {
+            if correlated {
+                // The guards would have to hold per correlation group
+                return Ok(None);
+            }
+            if inner_nullable {
+                // No row survives if the subquery produces a NULL
+                let null_keys = LogicalPlan::Filter(FilterNode {
+                    input: Arc::new(decorrelated_subquery.clone()),
+                    predicate: Expr::UnaryExpr {
+                        op: UnaryOp::IsNull,
+                        expr: Box::new(inner_key.clone()),
+                    },
+                });
+                null_guards.push(not_exists(null_keys));
+            }
+            if outer_nullable {
+                // A NULL operand survives only an empty subquery result
+                null_guards.push(Expr::BinaryExpr {
+                    left: Box::new(Expr::UnaryExpr {
+                        op: UnaryOp::IsNotNull,
+                        expr: Box::new(in_expr.clone()),
+                    }),
+                    op: BinaryOp::Or,
+                    right: Box::new(not_exists(decorrelated_subquery.clone())),
+                });
+            }
+        }
     }
 
     let join_type = if negated {
@@ -424,7 +480,119 @@ fn decorrelate_in_subquery(
         schema,
     });
 
-    Ok(Some(join))
+    Ok(Some((join, null_guards)))
+}
+
+/// Whether `predicate` has a top-level conjunct `col IS NOT NULL`
+fn filter_requires_not_null(predicate: &Expr, col: &Column, schema: &PlanSchema) -> bool {
+    match predicate {
+        Expr::BinaryExpr {
+            left,
+            op: BinaryOp::And,
+            right,
+        } => {
+            filter_requires_not_null(left, col, schema)
+                || filter_requires_not_null(right, col, schema)
+        }
+        Expr::UnaryExpr {
+            op: UnaryOp::IsNotNull,
+            expr,
+        } => match (expr.as_ref(), schema.resolve_column(col)) {
+            (Expr::Column(tested), Some((idx, _))) => {
+                schema.resolve_column(tested).is_some_and(|(i, _)| i == idx)
+            }
+            _ => false,
+        },
+        _ => false,
+    }
+}
+
+/// `NOT EXISTS (plan)`; one row is enough to decide it
+fn not_exists(plan: LogicalPlan) -> Expr {
+    Expr::Exists {
+        subquery: Arc::new(LogicalPlan::Limit(LimitNode {
+            input: Arc::new(plan),
+            skip: 0,
+            fetch: Some(1),
+        })),
+        negated: true,
+    }
+}
+
+/// Whether `expr`, evaluated over the output of `plan`, can be proven to never
+/// be NULL. Only plain columns traced down to a NOT NULL table column through
+/// nodes that cannot introduce NULLs are proven; anything else counts as
+/// nullable, which is always safe.
+fn expr_is_non_nullable(expr: &Expr, plan: &LogicalPlan) -> bool {
+    match expr {
+        Expr::Literal(value) => !matches!(value, ScalarValue::Null),
+        Expr::Alias { expr, .. } => expr_is_non_nullable(expr, plan),
+        Expr::Column(col) => column_is_non_nullable(col, plan),
+        _ => false,
+    }
+}
+
+fn column_is_non_nullable(col: &Column, plan: &LogicalPlan) -> bool {
+    match plan {
+        LogicalPlan::Scan(node) => node
+            .schema
+            .resolve_column(col)
+            .is_some_and(|(_, field)| !field.nullable),
+        LogicalPlan::Filter(node) => {
+            filter_requires_not_null(&node.predicate, col, &node.input.schema())
+                || column_is_non_nullable(col, &node.input)
+        }
+        LogicalPlan::Sort(node) => column_is_non_nullable(col, &node.input),
+        LogicalPlan::Limit(node) => column_is_non_nullable(col, &node.input),
+        LogicalPlan::Distinct(node) => column_is_non_nullable(col, &node.input),
+        LogicalPlan::SubqueryAlias(node) => {
+            // The alias renames the input's columns position by position
+            let input_schema = node.input.schema();
+            if input_schema.len() != node.schema.len() {
+                return false;
+            }
+            match node.schema.resolve_column(col) {
+                Some((idx, _)) => {
+                    let field = &input_schema.fields()[idx];
+                    let input_col = Column {
+                        relation: field.relation.clone(),
+                        name: field.name.clone(),
+                    };
+                    column_is_non_nullable(&input_col, &node.input)
+                }
+                None => false,
+            }
+        }
+        LogicalPlan::Project(node) => {
+            if node.exprs.len() != node.schema.len() {
+                return false;
+            }
+            match node.schema.resolve_column(col) {
+                Some((idx, _)) => expr_is_non_nullable(&node.exprs[idx], &node.input),
+                None => false,
+            }
+        }
+        LogicalPlan::Join(node) => {
+            let in_left = node.left.schema().resolve_column(col).is_some();
+            match node.join_type {
+                // Only the left side is visible above a Semi/Anti join
+                JoinType::Semi | JoinType::Anti => {
+                    in_left && column_is_non_nullable(col, &node.left)
+                }
+                JoinType::Inner | JoinType::Cross => {
+                    let in_right = node.right.schema().resolve_column(col).is_some();
+                    match (in_left, in_right) {
+                        (true, false) => column_is_non_nullable(col, &node.left),
+                        (false, true) => column_is_non_nullable(col, &node.right),
+                        _ => false,
+                    }
+                }
+                // Outer joins NULL-extend
+                _ => false,
+            }
+        }
+        _ => false,
+    }
 }
 
 /// Try to decorrelate a scalar subquery comparison like `expr op (SELECT ...)`
